@@ -274,12 +274,15 @@ JOBS['C15'] = Job('C15', mc='MC_Wire', tag='WIRE', drive='wire-run', trace='Trac
 NT = ('VlanId', 'VlanPcp', 'IpDscp', 'IpEcn', 'IpFragOffset', 'Ipv6FlowLabel', 'MacsecAn', 'MacsecShortLen', 'Qrv')
 
 
+BITFIELD_APIS = ('ipv6.set_dscp', 'ipv6.set_ecn')      # bit-field isolation: C15
+
+
 def fields_tag_props_c14(tag):
-    return [] if tag.split(':')[-1] in NT else ['C14']
+    return [] if tag.split(':')[-1] in NT or tag.split(':')[-1] in BITFIELD_APIS else ['C14']
 
 
 def fields_tag_props_c15(tag):
-    return ['C15'] if tag.split(':')[-1] in NT or ':' not in tag else []
+    return ['C15'] if tag.split(':')[-1] in NT or tag.split(':')[-1] in BITFIELD_APIS or ':' not in tag else []
 
 
 JOBS['C14'] = Job('C14', mc='MC_Fields', tag='FIELD', drive='fields-run', trace='Trace_Fields',
